@@ -60,6 +60,15 @@ func niBoot() {
 	}
 }
 
+// an initializer that takes another (named) initializer as an ordering dependency
+type niAfterIn struct {
+	godi.In
+	Ready struct{} `name:"warmup"`
+	Scope godi.Scope
+}
+
+func niAfter(in niAfterIn) { niHit("after-warmup", in.Scope.ID()) }
+
 type niRepo struct{ n int }
 type niRepoIn struct {
 	godi.In
@@ -115,6 +124,7 @@ func runC02NamedInitializers(c *eng.Ctx, next func() (int, bool)) {
 			}()
 			coll := godi.NewCollection()
 			regs := []func() error{
+				func() error { return coll.AddScoped(niAfter) },
 				func() error { return coll.AddScoped(niWarmup, godi.Name("warmup")) },
 				func() error { return coll.AddScoped(niCheck, godi.Name("check")) },
 				func() error { return coll.AddScoped(niAnon) },
@@ -178,7 +188,7 @@ func runC02NamedInitializers(c *eng.Ctx, next func() (int, bool)) {
 			}
 			w.mu.Lock()
 			defer w.mu.Unlock()
-			for _, init := range []string{"warmup", "check", "anonymous"} {
+			for _, init := range []string{"warmup", "check", "anonymous", "after-warmup"} {
 				per := w.runs[init]
 				var bad []string
 				for id, n := range per {
